@@ -7,6 +7,7 @@ import (
 
 	"github.com/flant/shell-operator/pkg/metric"
 	"github.com/flant/shell-operator/pkg/task"
+	"github.com/flant/shell-operator/pkg/utils/verifsched"
 )
 
 const MainQueueName = "main"
@@ -119,6 +120,7 @@ func (tqs *TaskQueueSet) Iterate(doFn func(queue *TaskQueue)) {
 
 	tqs.m.RLock()
 	defer tqs.m.RUnlock()
+	verifsched.Point("queueset.iterate.locked", tqs.MainName)
 	if len(tqs.Queues) == 0 {
 		return
 	}
